@@ -265,3 +265,89 @@ func verifC15_closing() {
 	vAssert(err == nil, "C15.closing.close-returns-nil-on-echo")
 	vObserve("closing", vWireSummary(t.out), err == nil)
 }
+
+// C15.three: three Pings whose lifetimes overlap in the one way that lets a payload be reused: A and B are outstanding,
+// A's pong arrives and A returns, then C starts while B is still waiting. The peer answers faithfully (B's payload, then
+// C's). Pings outstanding at the same time carry different payloads, B returns nil on the pong with B's payload and C
+// only on the pong with C's.
+func verifC15_three() {
+	client := vParam("client", 1) == 1
+	vInstallRand()
+	t := vNewTransport(nil)
+	t.endMode = vEndBlock
+	c := vNewConn(t, client, nil, 32, 64)
+	c.CloseRead(vBG)
+	pong := func(p []byte) {
+		f := vFrame{fin: true, opcode: 10, masked: !client, payload: p}
+		if f.masked {
+			copy(f.key[:], vBytes("key", 4))
+		}
+		t.vFeed(vEncodeFrame(f))
+	}
+	pingPayloads := func() [][]byte {
+		frs, _ := vParseWritten(t.out)
+		var out [][]byte
+		for _, f := range frs {
+			if f.opcode == 9 {
+				out = append(out, f.payload)
+			}
+		}
+		return out
+	}
+	res := make([]chan error, 3)
+	start := func(i int) {
+		res[i] = make(chan error, 1)
+		go func() {
+			ctx, cancel := context.WithTimeout(vBG, 20*time.Second)
+			defer cancel()
+			res[i] <- c.Ping(ctx)
+		}()
+		vGhostSettle()
+	}
+	returned := func(i int) (bool, error) {
+		select {
+		case e := <-res[i]:
+			return true, e
+		default:
+			return false, nil
+		}
+	}
+	start(0)
+	start(1)
+	ps := pingPayloads()
+	vAssert(len(ps) == 2, "C15.three.two-pings-on-the-wire")
+	if len(ps) != 2 {
+		c.CloseNow()
+		return
+	}
+	vAssert(vNot(vEqBytes(ps[0], ps[1])), "C15.own.outstanding-pings-have-different-payloads")
+	pong(ps[0])
+	vGhostSettle()
+	okA, eA := returned(0)
+	vAssert(vAnd(okA, eA == nil), "C15.own.first-ping-returns-on-its-pong")
+	start(2)
+	ps = pingPayloads()
+	vAssert(len(ps) == 3, "C15.three.third-ping-on-the-wire")
+	if len(ps) != 3 {
+		c.CloseNow()
+		return
+	}
+	vAssert(vNot(vEqBytes(ps[1], ps[2])), "C15.own.outstanding-pings-have-different-payloads")
+	vReach("C15.three.overlap")
+	pong(ps[1]) // B's pong
+	vGhostSettle()
+	okB, eB := returned(1)
+	vAssert(vAnd(okB, eB == nil), "C15.own.second-ping-returns-on-its-own-pong")
+	okC, _ := returned(2)
+	if vNot(vEqBytes(ps[1], ps[2])) {
+		vAssert(vNot(okC), "C15.own.third-ping-not-completed-by-anothers-pong")
+	}
+	if !okC {
+		pong(ps[2])
+		vGhostSettle()
+		okC2, eC := returned(2)
+		vAssert(vAnd(okC2, eC == nil), "C15.own.third-ping-returns-on-its-own-pong")
+	}
+	c.CloseNow()
+	vObserve("c15three", len(ps))
+}
